@@ -143,5 +143,9 @@ def run(prog, rep):
                           "every normal path and whatever `strict` is (rule SIB-2 of C13)")
     from .c13 import sib2_section_rule
     sib2_section_rule(prog, rep, "OBL-MERGE")
+    from ..report import import_verdicts
+    import_verdicts(prog, rep, "C13", ("FWD-1",), "OBL-MERGE",
+                    "MERGE-REC treats the refusals of the nested merge as already checked by the outer merge_check: that holds only when the nested "
+                    "merge runs with the caller's strict flag; a dropped or changed flag lets the nested level refuse after the outer level wrote")
     rep.assume("the tree invariant of C03 and the dtype conformance of C05 hold in the pre-state (used by the derived contracts)")
     rep.assume("raise vocabulary: explicit raise statements + LIB_RAISES table (odmlsa/raises.py); RuntimeError('cannot unmerge myself?') is an internal assertion and excluded")
